@@ -419,3 +419,36 @@ def run(ck):
               "every accepted connection is registered with its worker: the peers queue is popped until it is empty (its eventfd is "
               "drained before each pop, so a consumer that stops earlier leaves accepted connections behind, unserved and never released)",
               key_pred=lambda k: "peersQueue" in k or "handlePeerQueue" in k, min_instances=1)
+
+    # ---------------- R14: the read path does not complete writes ----------------
+    ck.rule("C08-R14", "D who-may-call over the library's call graph",
+            "nothing the framework itself does while it reads from a connection (Transport::handleIncoming, Handler::onInput and the library "
+            "functions they call) drains the write queue: completing a queued write runs its continuation on the spot, and the continuation "
+            "of a queued idle-time-out answer is the release of that very connection -- the read loop would go on with a released peer and "
+            "report its disconnection a second time. Writes are completed from the event loop (onReady) and on an explicit flush() of a "
+            "response stream by the application", 1)
+    lib_file = lambda p_: p_.startswith(facts.REPO + "/src/") or p_.startswith(facts.REPO + "/include/")
+    roots14 = prog.find(T + "handleIncoming", 1) + prog.find("Pistache::Http::Handler::onInput", 1)
+    seen14, work14 = {}, [(r_, []) for r_ in roots14]
+    hit14 = None
+    while work14 and hit14 is None:
+        f_, chain_ = work14.pop()
+        if f_.id in seen14:
+            continue
+        seen14[f_.id] = chain_
+        for e in f_.events("call"):
+            for g_ in prog.resolve_call(e):
+                if not lib_file(g_.file):
+                    continue
+                step_ = chain_ + ["%s calls %s at %s" % (f_.name, g_.name, e.loc)]
+                if g_.base in (T + "asyncWriteImpl", T + "handleWriteQueue"):
+                    hit14 = (e, f_, step_)
+                    break
+                if g_.id not in seen14:
+                    work14.append((g_, step_))
+            if hit14:
+                break
+    ck.ob("C08-R14", "read-path/does-not-drain-the-write-queue", hit14 is None, (hit14[0].loc if hit14 else roots14[0].loc), (hit14[1] if hit14 else roots14[0]),
+          "%d library functions reachable from the read path, none drains the write queue" % len(seen14) if hit14 is None else
+          "the read path reaches the write drain (%s): a queued write -- the idle-time-out answer, for one -- is completed, and its continuation run, in the middle of reading from the same connection"
+          % hit14[2][-1], path=(hit14[2] if hit14 else None))
